@@ -197,7 +197,15 @@ def run_tlc(module, cfg, *, workers=None, dump=None, simulate=None, depth=None, 
     own_meta = metadir is None
     metadir = metadir or scratch_dir("tlc-md-")
     if workers is None:
-        workers = os.cpu_count() or 4
+        workers = int(os.environ.get("VERIF_TLC_WORKERS", "0")) or (os.cpu_count() or 4)
+        try:   # do not pile 16 more threads onto a machine that is already saturated (several checks in parallel)
+            load = os.getloadavg()[0]
+            if load > 3 * workers:
+                workers = max(2, workers // 4)
+            elif load > 1.5 * workers:
+                workers = max(2, workers // 2)
+        except OSError:
+            pass
     cmd = ["java", "-XX:+UseParallelGC", "-Xmx8g", *java_opts, "-cp", JAR, "tlc2.TLC",
            "-workers", str(workers), "-metadir", metadir, "-noGenerateSpecTE", "-config", cfg]
     if deadlock_off:
@@ -220,7 +228,7 @@ def run_tlc(module, cfg, *, workers=None, dump=None, simulate=None, depth=None, 
     e.pop("JAVA_TOOL_OPTIONS", None)
     if env:
         e.update(env)
-    t0 = time.time()
+    t0 = time.monotonic()  # not time.time(): checks with a virtual clock re-bind it while TLC runs in a thread
     try:
         p = subprocess.run(cmd, cwd=cwd, env=e, capture_output=True, text=True, timeout=timeout)
     except subprocess.TimeoutExpired as exc:
@@ -229,7 +237,7 @@ def run_tlc(module, cfg, *, workers=None, dump=None, simulate=None, depth=None, 
         if own_meta:
             shutil.rmtree(metadir, ignore_errors=True)
     r = parse_output(p.stdout + p.stderr)
-    r.wall = time.time() - t0
+    r.wall = time.monotonic() - t0
     r.returncode = p.returncode
     if not r.ok and r.violated is None:
         raise MachineryError("TLC failed (rc=%s) on %s/%s:\n%s" % (p.returncode, module, cfg, r.output[-3000:]))
@@ -240,7 +248,7 @@ _RE_STATES = re.compile(r"(\d+) states generated, (\d+) distinct states found")
 _RE_DEPTH = re.compile(r"depth of the complete state graph search is (\d+)")
 _RE_INV = re.compile(r"Error: Invariant (\S+) is violated")
 _RE_PROP = re.compile(r"Error: (?:Action|Temporal) propert(?:y|ies) (\S+)? ?(?:is|were) violated")
-_RE_COV = re.compile(r"^<(\w+) line (\d+), col (\d+) to line (\d+), col (\d+) of module (\w+)>: (\d+):(\d+)", re.M)
+_RE_COV = re.compile(r"^<(\w+) line (\d+), col (\d+) to line (\d+), col (\d+) of module (\w+)(?: \(\d+ \d+ \d+ \d+\))?>: (\d+):(\d+)", re.M)
 _RE_TRSTATE = re.compile(r"^State (\d+): <(.*?)>$", re.M)
 
 
@@ -371,7 +379,7 @@ def parse_simulate_file(path):
             args = parse_value("<<" + m.group(2)[1:-1] + ">>") if m.group(2) else ()
         sm = re.search(r"^STATE_(\d+) ==\s*(.*)", ch, re.M | re.S)
         if sm:
-            body = sm.group(2).strip()
+            body = re.sub(r"\n=+\s*$", "", sm.group(2).strip())   # the module's closing ==== line
             out.append((label, args, parse_state(body)))
     return out
 
